@@ -3,9 +3,10 @@ C09 — `with` restores an object's complete radio configuration.
 
 Spec: `NrfModel/Spec/Restore.lean` (`CfgRegs`, `regsOf`, `shadowRegs`, `ShadowEq`, `InRange`,
 `RadioShape`, `PoweredDown`, `SameShadows`).  Helper lemmas: `NrfProofs/C08Core.lean`,
-`NrfProofs/C09Enter.lean`, `C09History.lean` (blocks of several objects), `C09Init.lean`, `C09Ble.lean`.
+`NrfProofs/C09Enter.lean`, `C09History.lean` (blocks of several objects), `C09Init.lean`, `C09Ble.lean`,
+`InitDetect.lean` (the variant detection of `__init__`), `C09Construct.lean` (systems of constructed objects).
 -/
-import NrfProofs.C09Ble
+import NrfProofs.C09Construct
 
 namespace Nrf.Props.C09
 open Nrf Nrf.Spec Rf24
@@ -57,9 +58,11 @@ example : ∃ d w, d.rid < w.radios.length ∧ InRange d ∧ (radioOf d w).featu
     RadioShape (radioOf d w) ∧ ¬ ShadowEq d (radioOf d w) :=
   ⟨{ rid := 1, channel := 40, aa := 3 }, World.fresh 2, by decide⟩
 
-/-- **Non-plus chip with locked feature registers** (what holds when `activated = false`, the
-situation of known finding K1): `__enter__` still restores every register except DYNPD and FEATURE,
-which keep whatever they held — the writes are ignored by the chip. -/
+/-- **Non-plus chip with locked feature registers** (what holds when `activated = false`; the
+situation of the former known finding K1, which `RF24.__init__` no longer produces — see
+`C09_init_detects_variant`, `C09_init_enter`, `C09_history_constructed` below — so this describes
+only a chip somebody locked by hand): `__enter__` still restores every register except DYNPD and
+FEATURE, which keep whatever they held — the writes are ignored by the chip. -/
 theorem C09_enter_locked_partial (d : Rf24) (w : World) (hrid : d.rid < w.radios.length) (hr : InRange d)
     (hvis : (radioOf d w).featureVisible = false) (hshape : RadioShape (radioOf d w)) :
     let out := exec enter ⟨d, w⟩
@@ -273,6 +276,120 @@ example : ∃ (dA dB : Rf24) (w : World), dA.rid < w.radios.length ∧ dB.rid < 
     InRange dB ∧ dA ≠ dB ∧ dA.rid = dB.rid :=
   ⟨{ rid := 0 }, { rid := 0, channel := 40, aa := 0, dynPl := 0, features := 0 }, World.fresh 1, by decide⟩
 
+/-! ### objects produced by `__init__`: the accessibility hypothesis is established, not assumed
+
+Repair 17d8151 (K1/K2): `RF24.__init__` detects the chip variant for every prior state of the chip and
+leaves the feature registers of a non-plus chip unlocked.  The theorems above that assume
+`featureVisible` (`C09_enter`, `C09_restore`, `C09_history` via `WorldOk`) therefore apply to every
+object the constructor produced, on any chip. -/
+
+/-- **`RF24.__init__` detects the variant and unlocks the feature registers**, for a new object on
+ANY radio of ANY world in which that radio answers and holds bytes in RX_ADDR_P2..5 — nRF24L01+ or
+non-plus, feature registers locked or unlocked, any content of FEATURE / DYNPD / every other
+register, FIFOs, flags, log: no exception; `_is_plus_variant` is the chip's variant; the variant is
+untouched; FEATURE/DYNPD are accessible afterwards. -/
+theorem C09_init_detects_variant (rid : Nat) (w : World) (hrid : rid < w.radios.length)
+    (hb : ∀ x ∈ (w.radio rid).rxAddrN, x < 256) :
+    let out := exec init ⟨{ rid := rid }, w⟩
+    out.1 = .ok () ∧ out.2.d.isPlus = (w.radio rid).plus ∧ (out.2.w.radio rid).plus = (w.radio rid).plus ∧
+    (out.2.w.radio rid).featureVisible = true := by
+  intro out
+  obtain ⟨s', hex, hre, _, hip, hpl, hvis, _⟩ := init_variant_spec ⟨{ rid := rid }, w⟩ hrid rfl hb
+  have hout : out = (.ok (), s') := hex
+  rw [hout]
+  have hrid1 : s'.d.rid = rid := (hre.frame hrid).1
+  have hc : s'.cfg = (s'.w.radio rid).cfgOf := by unfold DrvState.cfg; rw [hrid1]
+  rw [hc] at hpl hvis
+  exact ⟨rfl, hip, hpl, hvis⟩
+
+example : ∃ (rid : Nat) (w : World), rid < w.radios.length ∧ (∀ x ∈ (w.radio rid).rxAddrN, x < 256) ∧
+    (w.radio rid).plus = false ∧ (w.radio rid).featureVisible = true ∧ (w.radio rid).feature = 0 :=
+  ⟨0, { World.fresh 1 false with radios := [{ plus := false, activated := true, feature := 0 }] },
+    by decide, by decide, rfl, rfl, rfl⟩
+
+/-- **The first block of a constructed object, on any chip** (`C09_enter` without its hypothesis
+"FEATURE/DYNPD accessible"; the negation of the former finding K1).  For a new object on ANY radio
+of ANY world (as above, the radio having the chip's register shape): after `__init__` every
+configuration register equals its shadow (`ShadowEq`); `__enter__` then does not raise and programs
+the complete register file from the shadows — DYNPD = 0x3F and FEATURE = 5 included, also on a
+non-plus chip found locked. -/
+theorem C09_init_enter (rid : Nat) (w : World) (hrid : rid < w.radios.length)
+    (hb : ∀ x ∈ (w.radio rid).rxAddrN, x < 256) (hshape : RadioShape (w.radio rid)) :
+    let made := exec init ⟨{ rid := rid }, w⟩
+    let out := exec enter made.2
+    made.1 = .ok () ∧ ShadowEq made.2.d (made.2.w.radio rid) ∧
+    out.1 = .ok () ∧
+    regsOf (out.2.w.radio rid) = shadowRegs { made.2.d with config := made.2.d.config ||| 2 } ∧
+    (out.2.w.radio rid).dynpd = 0x3F ∧ (out.2.w.radio rid).feature = 5 ∧
+    ShadowEq out.2.d (out.2.w.radio rid) := by
+  intro made out
+  obtain ⟨s', hex, hre, hok, _, _, hvis, hregs⟩ := init_variant_spec ⟨{ rid := rid }, w⟩ hrid rfl hb
+  have hmade : made = (.ok (), s') := hex
+  have hrid1 : s'.d.rid = rid := (hre.frame hrid).1
+  have hc : s'.cfg = (s'.w.radio rid).cfgOf := by unfold DrvState.cfg; rw [hrid1]
+  have hregs' : regsOf (s'.w.radio rid) = shadowRegs s'.d := by
+    have := hregs hshape
+    rw [hc] at this
+    exact this
+  have hvis' : (radioOf s'.d s'.w).featureVisible = true := by
+    unfold radioOf; rw [hrid1]; rw [hc] at hvis; exact hvis
+  have hsh' : RadioShape (radioOf s'.d s'.w) := by
+    unfold radioOf; rw [hrid1]; exact radioShape_of_shadowEq hregs' hok.range
+  have hlen : s'.d.rid < s'.w.radios.length := by rw [hrid1, hre.length]; exact hrid
+  obtain ⟨e1, e2, e3, _⟩ := C09_enter s'.d s'.w hlen hok.range hvis' hsh'
+  have hout : out = exec enter ⟨s'.d, s'.w⟩ := by show exec enter made.2 = _; rw [hmade]
+  rw [hmade, hout]
+  unfold radioOf at e2 e3
+  rw [hrid1] at e2 e3
+  refine ⟨rfl, hregs', e1, e2, ?_, ?_, e3⟩
+  · have := congrArg CfgRegs.dynpd e2
+    exact this.trans hok.dyn
+  · have := congrArg CfgRegs.feature e2
+    exact this.trans hok.feat
+
+example : ∃ (rid : Nat) (w : World), rid < w.radios.length ∧ (∀ x ∈ (w.radio rid).rxAddrN, x < 256) ∧
+    RadioShape (w.radio rid) ∧ (w.radio rid).featureVisible = false :=
+  ⟨0, World.fresh 1 false, by decide, by decide, by decide, rfl⟩
+
+/-- **C09_history for constructed objects, on any chips.**  Take ANY world whose `n` radios have the
+chip's register shape and bytes in RX_ADDR_P2..5 (`WorldPre`: any variant, feature registers locked or
+unlocked, any register contents).  Construct any number of RF24 objects on its radios, in any order
+(`construct rids`; every radio gets at least one object or was accessible already).  Then for EVERY
+history of `with` blocks of these objects — any interleaving, bodies keeping the block contract
+`Body.Ok` — C09 holds at every block: the register file right after `__enter__` equals the one the
+object had established at the end of its previous block with PWR_UP set, and `__exit__` leaves CE
+low and the radio powered down.  No hypothesis about FEATURE/DYNPD being accessible: the
+constructors establish it (K1). -/
+theorem C09_history_constructed (n : Nat) (rids : List Nat) (w0 : World) (blocks : List (Nat × Body))
+    (hw0 : WorldPre n w0) (hr : ∀ r ∈ rids, r < n)
+    (hcov : ∀ j, j < n → j ∈ rids ∨ (w0.radio j).featureVisible = true)
+    (hblocks : ∀ ib ∈ blocks, ib.1 < rids.length ∧ ib.2.Ok n) :
+    Holds blocks ⟨(construct rids w0).1, (construct rids w0).2⟩ (fun _ => none) := by
+  obtain ⟨k1, k2, k3, k4⟩ := construct_spec n rids w0 hw0 hr
+  refine C09_history n blocks _ ⟨k1.1, fun j hj => ⟨k4 j hj (hcov j hj), (k1.2 j hj).1⟩⟩ ?_ ?_
+  · intro i hi
+    have hi' : i < rids.length := by rw [← k2]; exact hi
+    obtain ⟨a, b⟩ := k3 i hi'
+    refine ⟨?_, b⟩
+    rw [a]
+    refine hr _ ?_
+    rw [List.getD_eq_getElem?_getD, List.getElem?_eq_getElem hi', Option.getD_some]
+    exact List.getElem_mem hi'
+  · intro ib hib
+    obtain ⟨a, b⟩ := hblocks ib hib
+    exact ⟨by show ib.1 < (construct rids w0).1.length; rw [k2]; exact a, b⟩
+
+/-- three objects on one non-plus chip found in its reset state (FEATURE = 0, locked): the
+    hypotheses hold although the chip is not accessible before the first constructor ran -/
+example : WorldPre 1 (World.fresh 1 false) ∧ (∀ r ∈ [0, 0, 0], r < 1) ∧
+    (∀ j, j < 1 → j ∈ [0, 0, 0] ∨ ((World.fresh 1 false).radio j).featureVisible = true) ∧
+    ((World.fresh 1 false).radio 0).featureVisible = false := by
+  refine ⟨⟨rfl, fun j hj => ?_⟩, by decide, fun j hj => ?_, rfl⟩
+  · have : j = 0 := by omega
+    subst this; exact ⟨by decide, by decide⟩
+  · have : j = 0 := by omega
+    subst this; exact .inl (by decide)
+
 /-! ### FakeBLE objects and the shadow ranges the constructors establish -/
 
 /-- `FakeBLE.__enter__` is `RF24.__enter__` on the embedded driver object, `FakeBLE.__exit__` is
@@ -351,7 +468,7 @@ theorem C09_ble_init_inrange (rid : Nat) (w : World) (hrid : rid < w.radios.leng
     out.1 = .ok () ∧ InRange out.2.b.rf ∧ out.2.b.rf.rid = rid ∧ out.2.w.radios.length = w.radios.length ∧
     out.2.b.rf.pipe0ReadAddr = some BLE_ADDR ∧ out.2.b.rf.openPipes &&& 1 ≠ 0 ∧ out.2.b.rf.config &&& 1 = 0 := by
   intro out
-  obtain ⟨s', hex, h1, h2, h3, h4, h5, h6⟩ := ble_init_spec { rf := { rid := rid } } w hrid rfl hb hs
+  obtain ⟨s', hex, h1, h2, h3, h4, h5, h6, _⟩ := ble_init_spec { rf := { rid := rid } } w hrid rfl hb hs
   have : out = (.ok (), s') := hex
   rw [this]
   exact ⟨rfl, h1, h2, h3, h4, h5, h6⟩
@@ -359,5 +476,21 @@ theorem C09_ble_init_inrange (rid : Nat) (w : World) (hrid : rid < w.radios.leng
 example : ∃ (rid : Nat) (w : World), rid < w.radios.length ∧ (∀ x ∈ (w.radio rid).rxAddrN, x < 256) ∧
     RadioShape (w.radio rid) :=
   ⟨0, World.fresh 1, by decide, by decide, by decide⟩
+
+/-- **`FakeBLE.__init__` detects the variant and unlocks the feature registers**, likewise (it runs
+`RF24.__init__` and then only register writes): on any chip, in any prior state. -/
+theorem C09_ble_init_detects_variant (rid : Nat) (w : World) (hrid : rid < w.radios.length)
+    (hb : ∀ x ∈ (w.radio rid).rxAddrN, x < 256) (hs : RadioShape (w.radio rid)) :
+    let out := execB BleDev.init ⟨{ rf := { rid := rid } }, w⟩
+    out.1 = .ok () ∧ out.2.b.rf.isPlus = (w.radio rid).plus ∧ (out.2.w.radio rid).featureVisible = true := by
+  intro out
+  obtain ⟨s', hex, _, _, _, _, _, _, h7, h8⟩ := ble_init_spec { rf := { rid := rid } } w hrid rfl hb hs
+  have : out = (.ok (), s') := hex
+  rw [this]
+  exact ⟨rfl, h7, h8⟩
+
+example : ∃ (rid : Nat) (w : World), rid < w.radios.length ∧ (∀ x ∈ (w.radio rid).rxAddrN, x < 256) ∧
+    RadioShape (w.radio rid) ∧ (w.radio rid).featureVisible = false :=
+  ⟨0, World.fresh 1 false, by decide, by decide, by decide, rfl⟩
 
 end Nrf.Props.C09
